@@ -317,6 +317,10 @@ class Sem:
             if oa != ob and not (isinstance(xa, str) and isinstance(xb, str)):
                 raise Abstain("type[...] annotations with different generic origins")
             return False
+        if ta or tb:
+            other = b if ta else a
+            if isinstance(other, str) and self.cls(other) is not type and isinstance(self.cls(other), type) and issubclass(self.cls(other), type):
+                raise Abstain("order between type[...] and a metaclass annotation")
         if ta:
             return isinstance(b, str) and self.cls(b) is object
         if tb:
